@@ -147,6 +147,9 @@ func genC03(r *Rng, tier string, i int) map[string]any {
 		}
 	}
 	ringOfParents(r, st)
+	if i%7 == 2 {
+		renameIDs(r, f)
+	}
 	return staticCase(f.members(r, false, nil), nil, r.Bool(), map[string]any{"truth": f.truth()})
 }
 
